@@ -1,79 +1,5 @@
 From CV Require Import Base RunLoop.
-Open Scope N_scope.
-
-Definition is_half (t : rthread) : bool := match rt_stage t with RHalf => true | _ => false end.
-Fixpoint nhalf (l : list rthread) : N := match l with [] => 0 | t :: r => (if is_half t then 1 else 0) + nhalf r end.
-Lemma nhalf_upd l : forall i t t', nth_error l i = Some t ->
-  nhalf (upd_rt l i t') + (if is_half t then 1 else 0) = nhalf l + (if is_half t' then 1 else 0).
-Proof. induction l as [|x r IH]; intros [|i] t t' H; cbn in *; try discriminate; [injection H as ->; lia|specialize (IH i t t' H); lia]. Qed.
-Lemma upd_rt_same l : forall i t, nth_error l i = Some t -> upd_rt l i t = l.
-Proof. induction l as [|x r IH]; intros [|i] t H; cbn in *; try discriminate; [congruence|f_equal; auto]. Qed.
-
-Definition waiting (s : rst) : bool := match pc s with LWaiting => true | _ => false end.
-Definition before_swap (s : rst) : bool := match pc s with L0 | L1 | L2 | LDone _ => true | _ => false end.
-
-(* - the loop is never blocked while a notification is pending (a wake-up issued before the wait is not lost)
-   - run()/block_on() only see the stop flag set if stop() was called after the initial reset
-   - a set future_ready flag always has something on its way that will bring the loop to poll the future *)
-Definition rinv (s : rst) : Prop :=
-  (notif s = true -> waiting s = false) /\
-  (stopf s = true -> pc s = L0 \/ stop_req s = true) /\
-  (forall b, pc s = LDone b -> b = false -> stop_req s = true) /\
-  (blockon s = true -> readyf s = true -> before_swap s = true \/ notif s = true \/ 1 <= nhalf (rthr s)).
-
-Ltac rcbn := cbn [blockon stopf readyf notif pc fut rthr stop_req iters_after_stop polls wakes rlog set_rthr after_wait rt_stage rt_ops].
-
-Ltac brute :=
-  cbn in *;
-  repeat match goal with
-         | b : bool |- _ => destruct b
-         end;
-  cbn in *; intuition (try discriminate; try congruence; try lia).
-
-Lemma rinv_loop_step s : rinv s -> rinv (loop_step s).
-Proof.
-  destruct s as [bo st rd nt p f th sr ia po wk lg]. unfold rinv, loop_step, waiting, before_swap, after_wait.
-  cbn [blockon stopf readyf notif pc fut rthr stop_req iters_after_stop polls wakes rlog].
-  destruct p as [| | | | |b0]; try (destruct f as [|[] f]); brute.
-Qed.
-
-Lemma rinv_thread_step s i t : rinv s -> nth_error (rthr s) i = Some t ->
-  rinv (let (s', t') := rt_step s i t in set_rthr s' (upd_rt (rthr s) i t')).
-Proof.
-  intros Hinv En. pose proof (nhalf_upd (rthr s) i t) as NU.
-  destruct s as [bo st rd nt p f th sr ia po wk lg]. destruct t as [ops stg].
-  unfold rinv, rt_step, do_notify, waiting, before_swap, after_wait, set_rthr in *.
-  cbn [blockon stopf readyf notif pc fut rthr stop_req iters_after_stop polls wakes rlog rt_stage rt_ops] in *.
-  destruct stg.
-  - destruct ops as [|[] r].
-    + cbn. rewrite (upd_rt_same _ _ _ En). exact Hinv.
-    + specialize (NU (mkRT r RIdle) En). unfold is_half in NU. cbn in NU.
-      destruct p as [| | | | |b0]; brute.
-    + specialize (NU (mkRT r RIdle) En). unfold is_half in NU. cbn in NU.
-      destruct p as [| | | | |b0]; brute.
-    + specialize (NU (mkRT r RPre) En). unfold is_half in NU. cbn in NU.
-      destruct p as [| | | | |b0]; brute.
-  - specialize (NU (mkRT ops RHalf) En). unfold is_half in NU. cbn in NU.
-    destruct p as [| | | | |b0]; brute.
-  - specialize (NU (mkRT ops RIdle) En). unfold is_half in NU. cbn in NU.
-    destruct p as [| | | | |b0]; brute.
-Qed.
-
-Lemma rinv_step s k : rinv s -> rinv (r_step s k).
-Proof.
-  intros H. destruct k as [|i]; cbn [r_step]; [apply rinv_loop_step; exact H|].
-  destruct (nth_error (rthr s) i) as [t|] eqn:En; [|exact H]. apply rinv_thread_step; assumption.
-Qed.
-
-Lemma nhalf_init progs : nhalf (map (fun p => mkRT p RIdle) progs) = 0.
-Proof. induction progs as [|p r IH]; cbn; [reflexivity|exact IH]. Qed.
-Lemma rinv_init bo f progs : rinv (r_init bo f progs).
-Proof. unfold rinv, r_init, waiting, before_swap; cbn. repeat split; intros; try discriminate; auto. Qed.
-Lemma rinv_run bo f progs sched : rinv (r_run bo f progs sched).
-Proof.
-  unfold r_run. generalize (rinv_init bo f progs). generalize (r_init bo f progs).
-  induction sched as [|k r IH]; intros s Hs; cbn; [exact Hs|]. apply IH. apply rinv_step. exact Hs.
-Qed.
+From CVP Require Export RunLoop_inv.
 
 (* wakeup(): the wait in progress ends, otherwise the notification stays for the next wait, which then does not block *)
 Lemma notify_sticky s lg : waiting (do_notify s lg) = false /\ (waiting s = true -> pc (do_notify s lg) = L1) /\
@@ -95,7 +21,9 @@ Proof.
   intros [Hs Hp]. destruct k as [|i]; cbn [r_step].
   - unfold loop_step, after_wait, told. destruct (pc s) eqn:E; try contradiction.
     + rewrite Hs. right. eexists. reflexivity.
-    + destruct (readyf s); [destruct (fut s) as [|[] r]|]; cbn; try (right; eexists; reflexivity); left; (split; [exact Hs|exact Hp]).
+    + destruct (readyf s); [destruct (fut s) as [|n r]; [|destruct n as [|[[| |]|[| |]|]]]|]; cbn; try (right; eexists; reflexivity); left; (split; [exact Hs|try exact Hp; try exact I]).
+    + left. cbn. split; [exact Hs|exact I].
+    + left. cbn. split; [exact Hs|reflexivity].
     + rewrite Hp. left. cbn. split; [exact Hs|exact I].
     + right. eexists. exact E.
   - destruct (nth_error (rthr s) i) as [t|]; [|left; split; assumption].
@@ -103,14 +31,43 @@ Proof.
       destruct (pc s) eqn:E; cbn; try contradiction; try (left; split; [assumption || reflexivity|]; try exact I; try assumption; try reflexivity);
       try (right; eexists; reflexivity).
 Qed.
-(* ... and the loop thread itself needs at most three of its own steps: (swap ->) wait returns at once -> flag check -> return *)
-Lemma told_returns s : told s -> exists b, pc (loop_step (loop_step (loop_step s))) = LDone b.
+(* ... and the loop thread itself needs at most five of its own steps: (the self-waking poll's store and notify ->) swap ->
+   wait returns at once -> flag check -> return *)
+Lemma iter_succ_r' {A} n (f : A -> A) x : Nat.iter (S n) f x = Nat.iter n f (f x).
+Proof. induction n as [|n IH]; [reflexivity|]. change (f (Nat.iter (S n) f x) = f (Nat.iter n f (f x))). f_equal. exact IH. Qed.
+Definition lrank (p : lpc) : nat :=
+  match p with LDone _ => 0 | L1 => 1 | L3 => 2 | L2b => 3 | L2a => 4 | L2 => 5 | _ => 6 end.
+Lemma done_stays s b : pc s = LDone b -> pc (loop_step s) = LDone b.
+Proof. intros E. unfold loop_step. rewrite E. exact E. Qed.
+Lemma told_rank s : told s -> (exists b, pc s = LDone b) \/ (lrank (pc (loop_step s)) < lrank (pc s))%nat.
 Proof.
-  intros [Hs Hp]. unfold loop_step, after_wait. destruct (pc s) eqn:E; try contradiction; cbn.
-  - rewrite Hs. cbn. eexists. reflexivity.
-  - destruct (readyf s); [destruct (fut s) as [|[] r]|]; cbn; rewrite ?Hp, ?Hs; cbn; rewrite ?Hs; eexists; reflexivity.
-  - rewrite Hp. cbn. rewrite Hs. cbn. eexists. reflexivity.
-  - rewrite E. cbn. rewrite E. cbn. eexists. exact E.
+  intros [Hs Hp]. unfold loop_step, after_wait. destruct (pc s) eqn:E; try contradiction.
+  - right. rewrite Hs. cbn. lia.
+  - right. destruct (readyf s); [destruct (fut s) as [|n r]; [|destruct n as [|[[| |]|[| |]|]]]|]; cbn; lia.
+  - right. cbn. lia.
+  - right. cbn. lia.
+  - right. rewrite Hp. cbn. lia.
+  - left. eexists. reflexivity.
+Qed.
+Lemma done_iter m : forall s b, pc s = LDone b -> pc (Nat.iter m loop_step s) = LDone b.
+Proof. induction m as [|m IHm]; intros s b Hb; [exact Hb|]. rewrite iter_succ_r'. apply IHm. apply done_stays. exact Hb. Qed.
+Lemma told_iter n : forall s, told s -> (lrank (pc s) <= n)%nat -> exists b, pc (Nat.iter n loop_step s) = LDone b.
+Proof.
+  induction n as [|n IH]; intros s Ht Hr.
+  - destruct (pc s) eqn:E; cbn in Hr; try lia. exists ok_some. exact E.
+  - destruct (told_rank s Ht) as [[b Hb]|Hlt].
+    + exists b. apply done_iter. exact Hb.
+    + rewrite iter_succ_r'. destruct (told_stable s 0%nat Ht) as [Ht'|[b Hb]]; cbn [r_step] in *.
+      * apply IH; [exact Ht'|]. lia.
+      * exists b. apply done_iter. exact Hb.
+Qed.
+Lemma iter5 {A} (f : A -> A) x : Nat.iter 5 f x = f (f (f (f (f x)))).
+Proof. reflexivity. Qed.
+Lemma told_returns s : told s -> exists b, pc (loop_step (loop_step (loop_step (loop_step (loop_step s))))) = LDone b.
+Proof.
+  intros Ht. assert (Hr : (lrank (pc s) <= 5)%nat).
+  { destruct Ht as [_ Hp]. destruct (pc s); try contradiction; cbn; lia. }
+  destruct (told_iter 5 s Ht Hr) as [b Hb]. exists b. rewrite (iter5 loop_step s) in Hb. exact Hb.
 Qed.
 (* run() never returns Ok (block_on never returns None) without a stop request since it began *)
 Lemma no_spurious_return s : rinv s -> pc s = LDone false -> stop_req s = true.
